@@ -17,6 +17,7 @@ type c13Params struct {
 	repoFlagSets int
 	deep         int
 	uclass       int
+	lrrec        int
 	gen          int
 	genFree      int
 	mut          int
@@ -28,9 +29,9 @@ type c13Params struct {
 
 func c13Tier(tier string) c13Params {
 	if tier == "thorough" {
-		return c13Params{repoFlagSets: 12, deep: 60, uclass: 400, gen: 5000, genFree: 2500, mut: 9000, bytes: 2500, faultsPer: 6, sessionLen: 32, realBinary: 60}
+		return c13Params{repoFlagSets: 12, deep: 60, uclass: 400, lrrec: 200, gen: 5000, genFree: 2500, mut: 9000, bytes: 2500, faultsPer: 6, sessionLen: 32, realBinary: 60}
 	}
-	return c13Params{repoFlagSets: 1, deep: 6, uclass: 16, gen: 70, genFree: 40, mut: 170, bytes: 30, faultsPer: 4, sessionLen: 24, realBinary: 12}
+	return c13Params{repoFlagSets: 1, deep: 6, uclass: 16, lrrec: 10, gen: 70, genFree: 40, mut: 170, bytes: 30, faultsPer: 4, sessionLen: 24, realBinary: 12}
 }
 
 func c13Inputs(seed uint64, p c13Params, src string) []toolInput {
@@ -95,6 +96,14 @@ func c13Inputs(seed uint64, p c13Params, src string) []toolInput {
 		if r.chance(1, 2) && !contains(in.Flags, "-optimize-basic-latin") {
 			in.Flags = append(in.Flags, "-optimize-basic-latin")
 		}
+		ins = append(ins, in)
+	}
+	for _, h := range shortHeads {
+		ins = append(ins, toolInput{Name: "head", Class: "bytes", Grammar: []byte(h), Flags: drawFlags(r, nil, false)})
+	}
+	for i := 0; i < p.lrrec; i++ {
+		in := genLRRecovery(r)
+		in.Flags = drawFlags(r, in.Rules, r.chance(1, 3))
 		ins = append(ins, in)
 	}
 	for i := 0; i < p.bytes; i++ {
